@@ -189,7 +189,7 @@ func annotCases(g *Gen, n int) []*Case {
 func annotRecipe(g *Gen) *R {
 	ops := []string{"hint", "hint", "detail", "detail", "issuelink", "telemetry", "tags", "assertion", "wrap", "withstack",
 		"domain", "secondary", "mark", "hop"}
-	hintPool := []string{"h1", "h2", "", "h1", "multi\nline hint", "See: dup"}
+	hintPool := []string{"h1", "h2", "", "h1", "multi\nline hint", "See: dup", "disk is 100% full"}
 	{
 		var rec *R
 		switch g.rng.Intn(4) {
@@ -209,6 +209,12 @@ func annotRecipe(g *Gen) *R {
 			rec = g.WrapOp(op, rec, 2)
 			if (op == "hint" || op == "detail") && rec.Arg == nil {
 				rec.In[0] = hintPool[g.rng.Intn(len(hintPool))]
+				rec.F = false
+				if g.rng.Intn(5) == 0 {
+					// WithHintf / WithDetailf without arguments: "%%" is one percent sign, and the result
+					// de-duplicates against the literal twin in the pool
+					rec.In[0], rec.F = "disk is 100%% full", true
+				}
 			}
 		}
 		return rec
@@ -407,6 +413,9 @@ func propCases(res *Result, prop, tier string, g *Gen, n int, batch int) []*Case
 		cases = append(cases, engineCases(g, n/3, true, prop != "C12")...)
 		if prop == "C15" && batch == 0 {
 			cases = append(cases, emptyStackCases()...)
+		}
+		if prop == "C06" && batch == 0 {
+			cases = append(cases, decodedHostileCases()...)
 		}
 		if prop != "C15" && batch == 0 {
 			// runtime.Error, *net.OpError, redact.SafeMessager (kinds the special-case formatter knows
